@@ -275,6 +275,20 @@ def batch(ctx, navis, rng, tmp):
                 exp_attr = {conv(i_) if conv is int else str(i_): v_ for i_, v_ in want_attr.items()}
                 if got_attr != exp_attr:
                     ctx.violation('name/id are not parsed from the file name as the fmt pattern prescribes', dd, dict(got={str(k_): v_ for k_, v_ in got_attr.items()}, want={str(k_): v_ for k_, v_ in exp_attr.items()}))
+                # the same files inside a zip archive: the same attributes
+                zf_ = os.path.join(tmp, 'fmt%d_%d.zip' % (ci, len(pattern)))
+                with zipfile.ZipFile(zf_, 'w') as zz:
+                    for fn_ in sorted(os.listdir(df_)):
+                        zz.write(os.path.join(df_, fn_), fn_)
+                st, res = guarded(navis.read_precomputed, zf_, datatype='skeleton', fmt=pattern, parallel=False, info=False)
+                ctx.count('fmt-zip:' + pattern)
+                if st != 'ok':
+                    ctx.violation('read_precomputed raised for a documented fmt pattern (zip archive)', dd, res)
+                else:
+                    got_z = {conv(n.id) if conv is int else n.id: n.name for n in navis.NeuronList(res)}
+                    if got_z != exp_attr:
+                        ctx.violation('name/id are not parsed from the file name inside a zip archive as the fmt pattern prescribes', dd,
+                                      dict(got={str(k_): v_ for k_, v_ in got_z.items()}, want={str(k_): v_ for k_, v_ in exp_attr.items()}))
 
 
 def parallel_order(ctx, navis, rng, tmp):
@@ -395,6 +409,23 @@ def containers(ctx, navis, rng, tmp):
                 ctx.violation('JSON round trip does not reproduce nodes / id', desc, y if st != 'ok' else None)
             elif cn is not None and sorted(zip(y.connectors.connector_id, y.connectors.node_id)) != sorted(zip(x.connectors.connector_id, x.connectors.node_id)):
                 ctx.violation('JSON round trip does not reproduce connectors', desc)
+        # JSON with SEVERAL neurons: every entry decodes to its own neuron (navis' reader and an independent json decoder)
+        f2 = F.gen_forest(rng, 2, 10, lattice=True)
+        x2 = F.mk_neuron(f2, connectors=F.gen_connectors(rng, f2, 3), radius=rng.integers(1, 5, size=len(f2['ids'])).astype(float), name='jn2', nid=int(rng.integers(1000, 1999)), units='8 nm')
+        st, s2 = guarded(navis.write_json, navis.NeuronList([x, x2]), None)
+        ctx.count('json:list')
+        if st != 'ok':
+            ctx.violation('write_json(list) raised', desc, s2)
+        else:
+            st, ys = guarded(navis.read_json, s2)
+            okj = st == 'ok' and len(ys) == 2 and all(_same_nodes(a_, b_) and str(a_.id) == str(b_.id) for a_, b_ in zip([x, x2], ys))
+            try:
+                raw_ = json.loads(s2)
+                ids_ = sorted(str(e_.get('id')) for e_ in raw_)
+            except Exception as e_:
+                ids_ = repr(e_)
+            if not okj or ids_ != sorted([str(x.id), str(x2.id)]):
+                ctx.violation('JSON written for a list of neurons does not decode to each neuron\'s own nodes / id', dict(desc, second=f2), dict(ids_in_file=ids_))
         p = os.path.join(tmp, 'h%d.h5' % ci)
         st, _ = guarded(navis.write_h5, x, p, serialized=False, raw=True)
         if st != 'ok':
